@@ -222,6 +222,29 @@ func firstDiff(a, b string) int {
 
 // sameAlign compares a result with the expected rows: row count, names in order,
 // residues, Length(), rectangularity and the invariant hook.
+// appendProbe: a result owns its rows, spare capacity included: appending to every row (Concat with a clone of
+// the result) doubles every row and touches nothing else. Rows cut out of one shared buffer (Transpose, Split,
+// BuildBootstrap "allocating once") pass every read-only comparison and fail here.
+func (x *ctx) appendProbe(op, call string, res align.Alignment, exp gen.Rows) {
+	if res == nil || len(exp) == 0 || len(exp[0].Seq) == 0 || x.c.Failed() {
+		return
+	}
+	cl, err := res.Clone()
+	if err != nil {
+		return
+	}
+	if err := res.Concat(cl); err != nil {
+		x.fail(op, "append-to-result", "%s then Concat(clone of the result): %v", call, err)
+		return
+	}
+	dbl := make(gen.Rows, len(exp))
+	for i := range exp {
+		dbl[i] = gen.Seq{Name: exp[i].Name, Seq: exp[i].Seq + exp[i].Seq}
+	}
+	x.sameAlign(op, call+" then Concat(clone of the result)", res, dbl)
+	x.c.Count("relation:append-to-result:" + op)
+}
+
 func (x *ctx) sameAlign(op, call string, got align.Alignment, exp gen.Rows) bool {
 	if got == nil {
 		x.fail(op, "nil-result", "%s returned no alignment and no error", call)
@@ -312,7 +335,9 @@ func (x *ctx) checkSubAlign(al align.Alignment, start, length int) {
 			x.c.Count("SubAlign:empty-window")
 		}
 		if x.mustAccept("SubAlign", call, err) {
-			x.sameAlign("SubAlign", call, sub, refSubAlign(x.t.Rows, start, length))
+			if x.sameAlign("SubAlign", call, sub, refSubAlign(x.t.Rows, start, length)) {
+				x.appendProbe("SubAlign", call, sub, refSubAlign(x.t.Rows, start, length))
+			}
 		}
 	} else {
 		x.mustReject("SubAlign", call, err)
@@ -539,7 +564,9 @@ func (x *ctx) checkSelect(al align.Alignment, sl siteList) {
 		}
 	}
 	if x.mustAccept("SelectSites", call, err) {
-		x.sameAlign("SelectSites", call, sub, refSelect(x.t.Rows, sl.Sites))
+		if x.sameAlign("SelectSites", call, sub, refSelect(x.t.Rows, sl.Sites)) {
+			x.appendProbe("SelectSites", call, sub, refSelect(x.t.Rows, sl.Sites))
+		}
 	}
 }
 
@@ -1187,7 +1214,10 @@ func runsOf(sites []int) [][2]int {
 func genPartition(r *gen.Rand, L int) *pcase {
 	pc := &pcase{}
 	k := r.Range(2, 4)
-	kind := r.PickStr([]string{"blocks", "blocks", "codon", "codon+flank", "modulo", "scattered", "scattered", "incomplete", "single-partition", "bad-range", "overlap"})
+	kind := r.PickStr([]string{"blocks", "blocks", "codon", "codon+flank", "modulo", "scattered", "scattered", "incomplete", "single-partition", "bad-range", "overlap", "huge-stride"})
+	if kind == "huge-stride" && L < 3 {
+		kind = "blocks"
+	}
 	if L < 3 && (kind == "codon" || kind == "codon+flank" || kind == "modulo") {
 		kind = "scattered"
 	}
@@ -1294,6 +1324,12 @@ func genPartition(r *gen.Rand, L int) *pcase {
 		case 5:
 			add(1, L/2, L-1, -2)
 		}
+	case "huge-stride":
+		// a stride that start + stride overflows: the range is its first site only
+		st := r.Range(1, L-2)
+		add(0, st, L-1, r.PickInt([]int{math.MaxInt64, math.MaxInt64 - 1, math.MaxInt64 - L, math.MaxInt64 - st, math.MaxInt32, L, L + 1, L - st}))
+		add(1, 0, st-1, 1)
+		add(1, st+1, L-1, 1)
 	case "overlap":
 		add(0, 0, L-1, 1)
 		s := r.Intn(L)
@@ -1563,6 +1599,13 @@ func runSplit(c *mon.Case) {
 		}
 		c.Count("relation:blocks-reinterleaved")
 	}
+	// every block owns its rows (the partitioned bootstrap concatenates onto them)
+	for p := range blocks {
+		if blocks[p] != nil && blocks[p].NbSequences() > 0 && blocks[p].Length() > 0 {
+			x.appendProbe("Split", fmt.Sprintf("%s block %d", call, p), blocks[p], h.Snap(blocks[p]))
+		}
+	}
+	// ... and the other blocks and the input did not move
 	x.unchanged("Split", call, al)
 	c.NonTrivial(t.Rows.Key(), fmt.Sprint(pc.Ranges), pc.Via)
 	c.Note("%s via %s: %d partitions over %d columns, map %v", pc.Kind, pc.Via, len(m.names), t.L, m.codes)
@@ -1615,6 +1658,7 @@ func runTransform(c *mon.Case) {
 				x.sameAlign("Transpose", "Transpose() twice", tt, back)
 				c.Count("relation:transpose-twice")
 			}
+			x.appendProbe("Transpose", "Transpose()", tr, exp)
 		}
 	}
 	x.unchanged("Transpose", "Transpose()", al)
